@@ -9,7 +9,7 @@ use push::{
 };
 use serde_json::{json, Value};
 
-pub use push::push_vm::verif_alt_state::{AltState, Wrapped};
+pub use push::push_vm::verif_alt_state::{AltState, MiniState, Wrapped};
 
 pub fn p(n: i64) -> PushProgram {
     PushProgram::Instruction(IntInstruction::push(n).into())
@@ -119,6 +119,27 @@ pub fn observe_alt(r: Result<Option<AltState>, (usize, StackError)>) -> Value {
                    "third_max": cap(st.zz_flags.max_stack_size()), "third_size": st.zz_flags.size(),
                    "exec": prog_ids(&st.code), "execMax": cap(st.code.max_stack_size()),
                    "limit": st.steps, "inputs": inputs});
+            if !fields_agree {
+                o["accessors_address_other_fields"] = json!(true);
+            }
+            o
+        }
+    }
+}
+
+pub fn observe_mini(r: Result<Option<MiniState>, (usize, StackError)>) -> Value {
+    match r {
+        Ok(None) => json!({"status": "no_overflow"}),
+        Err((at, StackError::Overflow { .. })) => json!({"status": "overflow", "at": at}),
+        Err((at, e)) => json!({"status": "other_error", "at": at, "err": e.to_string()}),
+        Ok(Some(st)) => {
+            let a: Vec<i64> = top_first(st.stack::<i64>());
+            let fields_agree = top_first(&st.only) == a
+                && st.stack::<i64>().max_stack_size() == st.only.max_stack_size()
+                && st.stack::<PushProgram>().max_stack_size() == st.todo.max_stack_size()
+                && prog_ids(st.stack::<PushProgram>()) == prog_ids(&st.todo);
+            let mut o = json!({"status": "built", "vals": {"a": a}, "max": {"a": cap(st.only.max_stack_size())},
+                               "exec": prog_ids(&st.todo), "execMax": cap(st.todo.max_stack_size())});
             if !fields_agree {
                 o["accessors_address_other_fields"] = json!(true);
             }
